@@ -71,6 +71,7 @@ func main() {
 	modsetOf := flag.String("modset", "", "debug: print the computed modifies set of functions whose key contains this")
 	overlayF := flag.String("overlay", "", "JSON file mapping source paths to replacement files (mutation self-tests)")
 	probeT := flag.Int("probe", 2, "solver budget (s) of the vacuity probes; the self-test runs them longer to look for an inconsistent prelude")
+	namesOut := flag.String("names", "", "write the table of contract-named locals and their Go types to this file (run on the unchanged tree)")
 	patternsF := flag.String("patterns", "", "comma separated package patterns (default: the gonuts packages under contract)")
 	flag.Parse()
 	if *patternsF != "" {
@@ -115,6 +116,11 @@ func main() {
 	}
 	if err := e.loadPureList(filepath.Join(*verif, "contracts", "pure.txt")); err != nil {
 		fatal(err)
+	}
+	if *namesOut != "" {
+		e.recNames = map[string]map[string]string{}
+	} else if data, err := os.ReadFile(filepath.Join(*verif, "contracts", "names.json")); err == nil {
+		json.Unmarshal(data, &e.names)
 	}
 	type fastRule struct {
 		fn string
@@ -294,6 +300,12 @@ func main() {
 			r.Status, r.Src = "sat", r.Src+"; the type has: "+strings.Join(got, " ")
 		}
 		out.Obligations = append(out.Obligations, r)
+	}
+	if *namesOut != "" {
+		data, _ := json.MarshalIndent(e.recNames, "", " ")
+		os.WriteFile(*namesOut, data, 0644)
+		fmt.Printf("govc: wrote %d functions to %s\n", len(e.recNames), *namesOut)
+		return
 	}
 	// write queries and solve
 	var wg sync.WaitGroup
